@@ -1770,7 +1770,12 @@ def c08_ite(R):
         "ite_dict partitions the keys with a different comparison than the If it builds",
         construct="ite_dict partition",
     )
-    used = [f for f in order_fns if f"{f}(split_val)" in ast.unparse(idf)]
+    # (by use, not by the names of locals: the function called in the partition tests of the two dictionary comprehensions)
+    used = [
+        f
+        for f in order_fns
+        if any(isinstance(c_, ast.comprehension) and any(isinstance(k_, ast.Call) and isinstance(k_.func, ast.Name) and k_.func.id == f for i_ in c_.ifs for k_ in ast.walk(i_)) for c_ in ast.walk(idf))
+    ]
     if used:
         f = used[0]
         sorts = [c for c in _calls(idf) if (dotted(c.func) or "") in ("sorted",) or (isinstance(c.func, ast.Attribute) and c.func.attr == "sort")]
